@@ -371,7 +371,8 @@ pub fn gen_grammar_idiom(rng: &mut Rng, cfg: &GenCfg, k: usize) -> Vec<Rule> {
             let tagged = if k == 8 { Expr::NodeTag(bx(Expr::Opt(bx(b))), "t".into()) } else { Expr::NodeTag(bx(Expr::Rep(bx(b))), "t".into()) };
             if rng.chance(1, 2) { Expr::Seq(bx(a), bx(tagged)) } else { tagged } }
         // pushes, then a repeated stack reader (its last, failing iteration has already popped), then readers of what must be left
-        10 => { let npush = rng.range(2, 3); let rep = match variant % 4 { 0 | 1 => Expr::RepOnce(bx(Expr::Ident("POP".into()))), 2 => Expr::Rep(bx(Expr::Ident("POP".into()))), _ => Expr::RepOnce(bx(Expr::Seq(bx(Expr::Ident("POP".into())), bx(Expr::Opt(bx(s(rng))))))) };
+        10 => { let npush = if variant % 4 == 3 { 3 } else { 2 };   // two pushes: the shapes show within the exhaustive input length
+            let rep = match variant % 4 { 0 | 1 => Expr::RepOnce(bx(Expr::Ident("POP".into()))), 2 => Expr::Rep(bx(Expr::Ident("POP".into()))), _ => Expr::RepOnce(bx(Expr::Seq(bx(Expr::Ident("POP".into())), bx(Expr::Opt(bx(s(rng))))))) };
             let tail = match rng.below(3) { 0 => Expr::Seq(bx(s(rng)), bx(Expr::Ident("POP".into()))), 1 => Expr::Ident("PEEK_ALL".into()), _ => Expr::Seq(bx(Expr::Ident("POP".into())), bx(Expr::Opt(bx(Expr::Ident("POP".into()))))) };
             let mut e = Expr::Seq(bx(rep), bx(tail));
             for _ in 0..npush { e = Expr::Seq(bx(Expr::Push(bx(s(rng)))), bx(e)); }
